@@ -556,6 +556,10 @@ async def run_plan(drv: Driver, plan: dict):
                     if stop_requested and stop and stop.get("restart", True) and reason != "AUTOMATIC":
                         stop = None
                         stop_requested = False
+                        if plan.get("stop2"):
+                            # a second stop + restart, some iterations after the first restart
+                            stop = dict(plan["stop2"], iter=iters + int(plan["stop2"].get("after", 2)))
+                            plan = dict(plan, stop2=None)
                         drv.net = []          # messages in flight while the scheduler is down are lost
                         await drv.boot()
                         await drv.settle_after_restart()
